@@ -66,6 +66,10 @@ fn snap_eq(a: &Snapshot, b: &Snapshot) -> Result<(), String> {
     Ok(())
 }
 
+fn short_digits(e: &str) -> String {
+    e.chars().take(300).collect()
+}
+
 fn archive_readers(ctx: &mut Ctx, bytes: &[u8], label: &str, rng: &mut Rng) {
     let mat = json!({"archive": label, "file_bytes": bytes.len()});
     let ids: Vec<u64> = R::walk(bytes, &R::WalkLimits::default(), false).map(|(_, w)| w.tiles.keys().copied().collect()).unwrap_or_default();
@@ -103,6 +107,40 @@ fn archive_readers(ctx: &mut Ctx, bytes: &[u8], label: &str, rng: &mut Rng) {
             Ok(Ok(n)) => {
                 ctx.count(if r.is_some() { "partial_opens_equal" } else { "full_opens_equal" });
                 ctx.add("tiles_compared_between_readers", n as u64);
+            }
+        }
+    }
+    // re-write twins: open with either reader kind, write with the matching writer kind; both outputs must hold
+    // the same logical content as the source (and be byte-identical when no codec is involved)
+    if bytes.len() < (8 << 20) {
+        let res = guard(|| -> Result<(bool, usize), String> {
+            let src = snap_sync(bytes, None)?;
+            let pm = PMTiles::from_bytes(bytes.to_vec()).map_err(|e| format!("sync open failed: {e}"))?;
+            let bs = write_sync(pm).map_err(|e| format!("sync re-write failed: {e}"))?;
+            let mut s = ainst(bytes, rng, true);
+            let pm = block_on(PMTiles::from_async_reader(&mut s)).map_err(|e| format!("async open failed: {e}"))?;
+            let mut out = ainst(&[], rng, true);
+            block_on(pm.to_async_writer(&mut out)).map_err(|e| format!("async re-write failed: {e}"))?;
+            let ba = out.c.data;
+            let ss = snap_sync(&bs, None).map_err(|e| format!("sync re-write unreadable: {e}"))?;
+            let sa = snap_sync(&ba, None).map_err(|e| format!("async re-write unreadable: {e}"))?;
+            snap_eq(&src, &ss).map_err(|e| format!("sync re-write differs from the source: {e}"))?;
+            snap_eq(&src, &sa).map_err(|e| format!("async re-write differs from the source: {e}"))?;
+            let none = R::header_unpack(bytes).map(|h| h.internal_compression == R::C_NONE).unwrap_or(false);
+            if none && bs != ba {
+                return Err(format!("re-written outputs differ without a codec: sync {} bytes, async {} bytes", bs.len(), ba.len()));
+            }
+            Ok((none, src.2.len()))
+        });
+        match res {
+            Err(p) => ctx.panic("PMTiles::to_async_writer", &p, mat.clone()),
+            Ok(Err(e)) => ctx.violation("PMTiles::to_async_writer", "rewrites-differ", "re-writing an opened archive gives different results through the async API", &short_digits(&e), mat.clone()),
+            Ok(Ok((none, n))) => {
+                ctx.count("rewrite_twins_equal");
+                if none {
+                    ctx.count("rewrite_twins_byte_identical");
+                }
+                ctx.add("tiles_compared_between_rewrites", n as u64);
             }
         }
     }
